@@ -361,7 +361,11 @@ def run(ctx, prj: Project):
     ctx.not_decided = ["correctness of the offset->(line, column) mapping for arbitrary rewritings of the loop (integer loop invariant)",
                        "non-overlap / strictly increasing offsets of pygments' tokens"]
     ctx.trust("pygments' get_tokens_unprocessed yields increasing, non-overlapping offsets and treats only '\\n' as line end", "CPython ast")
-    rule_R1(ctx, prj)
+    deferred = None
+    try:
+        rule_R1(ctx, prj)
+    except AnalysisError as e:      # decided below whether another rule explains why lex left the understood fragment
+        deferred = e
     rule_R2(ctx, prj)
     from ..absint import PyRaise, Unknown
     try:
@@ -380,3 +384,8 @@ def run(ctx, prj: Project):
     rule_R4(ctx, prj)
     if not evaluated:
         rule_R5(ctx, prj)
+    if deferred is not None:
+        if ctx.violations:
+            ctx.info(f"R1 not decided ({deferred}); a violation of another rule is reported")
+        else:
+            raise deferred
